@@ -9,11 +9,11 @@ TECH = "bounded symbolic execution of the real Go code (go/ssa -> SMT-LIB2 bit-v
 TRUST = "Trusted: my go/ssa->SMT executor (gosym), z3 4.8.12, the harness oracles under /verif/harness. "
 T3 = " Generated decoders are reached through Tier 3: the instruction lists the repository's JIT assembler emits are dumped at check time and executed symbolically (engine/gosym/asm.go)."
 CLAIMED = {
- "C01": ("Partial. Decided by the solver for all inputs in the bound: the trailing-data rule of Unmarshal (Decoder.CheckTrailings) against the real encoding/json.isSpace executed from stdlib SSA; struct field selection (caching.FieldMap: exact match first, then case-insensitive, first declared field wins) for 1..2 fields; the white-space skipper of the generated int64 decoder skips exactly JSON white space for all inputs up to 6 bytes."+T3,
+ "C01": ("Partial. Decided by the solver for all inputs in the bound: the trailing-data rule of Unmarshal (Decoder.CheckTrailings) against the real encoding/json.isSpace executed from stdlib SSA; struct field selection (caching.FieldMap: exact match first, then case-insensitive, first declared field wins) for 1..2 fields; the white-space skipper of the generated int64 decoder skips exactly JSON white space for all inputs up to 6 bytes; the whole generated [2]int program is functionally correct on all texts up to 7 bytes (parsed elements hold their integer, null keeps, the rest is zeroed)."+T3,
          TRUST+"Trusted for Tier 3: golang-asm assembles the dumped list faithfully; my Plan 9 x86 semantics. Outside: the rest of the generated decoders (field dispatch, string/number opcodes), natives (DESIGN 3.1, 9.1).", TECH+"; Tier 3: symbolic execution of the dumped JIT instruction lists"),
- "C02": ("Partial. ast.NewRaw accepts exactly one value followed only by JSON spaces (Go wrapper rule), decided for all documents of the family; in generated decoders no byte other than JSON white space is skipped between tokens ([]int program), and the generic interface{} decoder dispatches each structural character , : [ ] { } to the same handler on its inline fast path and on the path through native value() (both dispatch tables read from the dumped program)."+T3,
+ "C02": ("Partial. ast.NewRaw accepts exactly one value followed only by JSON spaces (Go wrapper rule), decided for all documents of the family; in generated decoders no byte other than JSON white space is skipped between tokens ([]int program), and the generic interface{} decoder dispatches each structural character , : [ ] { } to the same handler on its inline fast path and on the path through native value() (both dispatch tables read from the dumped program); a token monitor on the whole generated struct decoder shows that every error-free path consumed a token sequence that spells valid JSON (texts up to 16 bytes, no white space)."+T3,
          TRUST+"Assumes the native skip_one behaves like ast/decode.go skipValue and native value() reports the token codes of native/types (replays use the real natives). Outside: the native validators' machine code, Valid/Skip/Get wrappers.", TECH+"; Tier 3: symbolic execution of the dumped JIT instruction lists"),
- "C03": ("Partial. alg.IsValidNumber == the real encoding/json.isValidNumber for every string up to 6 bytes (both executed symbolically; one side from stdlib SSA); the encoder's post-passes (encodeFinish: EscapeHTML, newline) are applied exactly as the option word says.",
+ "C03": ("Partial. alg.IsValidNumber == the real encoding/json.isValidNumber for every string up to 6 bytes (both executed symbolically; one side from stdlib SSA); the encoder's post-passes (encodeFinish: EscapeHTML, newline) are applied exactly as the option word says; SortMapKeys: insertRadixSort / radixQsort / heapSort sort ascending and permute pairs intact on bounded key sets; under CompactMarshaler a Marshaler's output is accepted exactly when json.Compact accepts it.",
          TRUST+"Outside: encoder programs, map-key sorting, JIT output, floats.", TECH),
  "C04": ("Partial. Invalid output of a user Marshaler is rejected unless validation is explicitly disabled, for every 64-bit option word (prim.EncodeJsonMarshaler).",
          TRUST+"json.Compact/alg.Valid are stubs that state their behaviour on the three sample outputs; replays use the real functions. Outside: float round-trip, quote/unquote inverse, NaN/Inf paths.", TECH),
@@ -21,29 +21,29 @@ CLAIMED = {
          TRUST+"Outside: the native routines' machine code (both SIMD levels), the JIT's inline scanners, alignment effects.", TECH),
  "C08": ("Partial. The program cache's RCU discipline decided on one symbolic execution from an arbitrary valid cache state: Get stores nothing; Compute never modifies published data except by the atomic publication (copy-on-write) -- sufficient for race freedom and before/after atomicity of Get vs Compute under every interleaving. Buffer pool: a buffer handed to a caller is never also pool-owned (limit boundary included).",
          TRUST+"Sequentially consistent atomics, lock-set model of sync.Mutex. Outside: first-use compilation races in the reflect/JIT layers, loader registration, other pools.", TECH+" + shared-state (freeze) discipline on the store log"),
- "C11": ("Partial. The alternative decoder's value-conversion layer on arbitrary well-typed DOM nodes: all integer functors (exact value, range errors, null untouched) for all 2^64 payloads; float32 acceptance iff the rounded value is finite (SMT FP theory); struct field lookup with an escaped key on the DOM the native parser produces.",
+ "C11": ("Partial. The alternative decoder's value-conversion layer on arbitrary well-typed DOM nodes: all integer functors (exact value, range errors, null untouched) for all 2^64 payloads; float32 acceptance iff the rounded value is finite (SMT FP theory); struct field lookup with an escaped key on the DOM the native parser produces; []byte from the unescaped text of an escaped base64 string; rt.DecodeBase64 never overruns or panics.",
          TRUST+"The DOM given to the functors is what parse_with_padding builds (assumption). Outside: the native DOM parser, map/slice/interface functors, reflective set-up.", TECH),
  "C16": ("Sufficient condition for every interleaving of readers, decided per ordered pair of read operations on one symbolic execution: on a loaded node (3 and 17 members) no read operation stores to any pre-existing object; on a NewRawConcurrentRead node every store to shared state happens inside the node's write lock.",
          TRUST+"Lock-set / freeze model (no weak memory); violations are reported from the symbolic run without native replay (a data race is not observable sequentially). Outside: unlocked READS of (t,l,p) racing with the locked conversion, 3+ threads are covered only through the sufficient condition.", TECH+" + shared-state (freeze) discipline on the store log"),
- "C19": ("Partial: integer exactness and float32 range, in the optdec functors and in the generated decoders (float32, int8, uint32 programs): exact to every width, out-of-range rejected without wrapping, float32 accepted iff the correctly rounded value is finite and that value stored, for all 2^64 payloads the native parser can report."+T3,
+ "C19": ("Partial: integer exactness and float32 range, in the optdec functors and in the generated decoders (float32, int8, uint32 programs, uint32 map keys): exact to every width, out-of-range rejected without wrapping, float32 accepted iff the correctly rounded value is finite and that value stored, for all 2^64 payloads the native parser can report."+T3,
          TRUST+"The native number parsers are contracts (arbitrary result of their type). Declined: float64 parse/format exactness (64x64->128 multiplications by table constants: unknown at 60 s on all three solvers), native vsigned/vunsigned/atof machine code.", TECH+"; Tier 3: symbolic execution of the dumped JIT instruction lists (SMT floating-point theory for CVTSD2SS/UCOMISS)"),
- "C06": ("Ownership of returned buffers decided with ghost pool state: encoder.Encode's result is never pool-owned, never aliased or changed by the next call, on both sides of the pool size limit and for every pool history of length 1; EncodeInto preserves the caller's prefix and stays inside the buffer; StreamDecoder hands the decoder a private copy for every option word.",
-         TRUST+"The per-type codec is a stub appending arbitrary bytes; sync.Pool.Get returns New() or any earlier Put (nondeterministic). Outside: generated encoders' space checks, Unmarshal/Get copies.", TECH),
- "C07": ("Partial. No panic and bounded excerpts in error formatting for every source length and every int64 position (calcBounds, SyntaxError/MismatchTypeError formatting, ast error description); Node.UnmarshalJSON on short input; encoder.HTMLEscape for every destination geometry; encoder stack limit; and, on the generated generic decoder, one inductive step over the nesting depth: from every legal depth each state-pushing handler either reports stack overflow or stores inside the real Vt/Vp arrays."+T3,
+ "C06": ("Ownership of returned buffers decided with ghost pool state: encoder.Encode's result is never pool-owned, never aliased or changed by the next call, on both sides of the pool size limit and for every pool history of length 1; EncodeInto preserves the caller's prefix and stays inside the buffer; StreamDecoder hands the decoder a private copy for every option word. Generated code (Tier 3): buffer-bounds monitor on the encoder programs for string, `,string`, all integer widths, floats and bool (every store and every native window inside the symbolic capacity), and base64 buffer capacity in the generated []byte decoder.",
+         TRUST+"The per-type codec is a stub appending arbitrary bytes; sync.Pool.Get returns New() or any earlier Put (nondeterministic). Natives called from generated code are size contracts (quote <= *dn, i64toa = digits of the value, f64toa <= 24, f32toa <= 15, base64 <= 3*len/4). Outside: container encoders (slices, maps, structs with several fields), Unmarshal/Get copies.", TECH+"; Tier 3: symbolic execution of the dumped JIT instruction lists"),
+ "C07": ("Partial. No panic and bounded excerpts in error formatting for every source length and every int64 position (calcBounds, SyntaxError/MismatchTypeError formatting, ast error description); Node.UnmarshalJSON on short input; encoder.HTMLEscape for every destination geometry; encoder stack limit; rt.DecodeBase64 buffer sizing (no panic for any text up to 7 bytes); and, on the generated generic decoder, one inductive step over the nesting depth: from every legal depth each state-pushing handler either reports stack overflow or stores inside the real Vt/Vp arrays."+T3,
          TRUST+"fmt.Sprintf is opaque; memory other than the state stack is angelic in the depth check. Outside: typed generated decoders' stack, native recursion limits, hangs.", TECH+"; Tier 3: symbolic execution of the dumped JIT instruction lists"),
  "C09": ("Partial, inductive: one _ProgramMap.add from an arbitrary valid cache state (all occupancy patterns, symbolic hashes) keeps every existing binding, finds the new key, never finds absent keys (equal hash is not equal type), copy-on-write; covers histories of any length that keep the invariant.",
          TRUST+"Representation invariant stated in the harness. Also: loader.Load maps results to its inputs for every name-equality pattern; encoder program lookup as a function of (type, pointer-value flag) - open known finding F9. Outside: compile decisions.", TECH),
- "C12": ("Partial. The Go number wrappers of the VM encoder (alg.F64toa/F32toa) append exactly what the native routine (called directly by the JIT) prints, for all 2^64 / 2^32 bit patterns and buffer geometries.",
+ "C12": ("Partial. The Go number wrappers of the VM encoder (alg.F64toa/F32toa) append exactly what the native routine (called directly by the JIT) prints, for all 2^64 / 2^32 bit patterns and buffer geometries; the Go quote fallback (alg.Quote) writes the delimiters of single and double quoting exactly once, empty string included.",
          TRUST+"Native f64toa/f32toa are uninterpreted functions of the bit pattern with the facts for +-0 and NaN/Inf. Outside: whole programs VM vs JIT (needs JIT code), flag tests.", TECH),
  "C13": ("Partial: dispatch wiring only. useSSE()/useAVX2() bind each of the 17 native subroutine addresses and 15 Go entry points to the same-named symbol of the selected instruction-set package (executed symbolically with unique markers on every symbol; natively compared against the real package variables).",
          TRUST+"Outside: equivalence of the SSE and AVX2 machine code itself (needs the x86 engine), cpu feature detection.", TECH),
- "C14": ("Partial. Node.Get / Index / Searcher.GetByPath on skeleton document families with symbolic keys (duplicates included, 3-member and 17-member objects crossing the hash-index threshold, lazy and fully loaded): the located node is the first occurrence and Raw()/Int64() describe it, for every SearchOptions combination.",
+ "C14": ("Partial. Node.Get / Index / Searcher.GetByPath on skeleton document families with symbolic keys (duplicates included, 3-member and 17-member objects crossing the hash-index threshold, lazy and fully loaded): the located node is the first occurrence and Raw()/Int64() describe it, for every SearchOptions combination; on a 20-member lazy object the answer of Get/IndexOrGet does not depend on which prefix earlier reads made the node load.",
          TRUST+"Natives are represented by the repository's pure-Go scanners (what non-amd64 builds run); strhash is an injective uninterpreted function (64-bit collisions outside the bound). Outside: native get_by_path machine code, Preorder, larger documents.", TECH),
  "C15": ("Bounded histories: all sequences of 2 operations (symbolic arguments) over Set/Unset/Get resp. SetByIndex/UnsetByIndex/Add/Pop on 3-member containers starting raw, lazy or loaded, compared with an ordered model after every step; lazy vs loaded 17-member object.",
          TRUST+"Same native models as C14. Outside: Move/SortKeys, longer histories, nested mutation, Len on partially loaded nodes (documented deviation).", TECH),
- "C17": ("StreamDecoder (Decode/More/readMore/peek/scan/refill/realloc) against framing the concatenated stream, for every way a Reader can cut a 3-byte stream (empty reads, data+EOF, injected error at any offset); StreamEncoder error propagation for every Writer behaviour.",
+ "C17": ("StreamDecoder (Decode/More/readMore/peek/scan/refill/realloc) against framing the concatenated stream, for every way a Reader can cut a 3-byte stream (empty reads, data+EOF, injected error at any offset); StreamEncoder error propagation for every Writer behaviour; values already returned cannot change later (the decoder works on a private copy of the framed text).",
          TRUST+"native.SkipOneFast is a reference model transcribed from native/scanning.h (scalar paths); the decoder/codec are stubs. Known finding F4 (number cut by a Read boundary) is reported, not repaired.", TECH),
- "C18": ("Partial. Config.Froze for all configurations at once; prim.EncodeJsonMarshaler/EncodeTextMarshaler: the three marshaler switches have exactly their documented effect for every 64-bit option word; every Encoder setter flips exactly its own bit; VM empty-slice/map opcodes and encodeFinish obey their option bits only.",
+ "C18": ("Partial. Config.Froze for all configurations at once; prim.EncodeJsonMarshaler/EncodeTextMarshaler: the three marshaler switches have exactly their documented effect for every 64-bit option word; every Encoder setter flips exactly its own bit; VM empty-slice/map opcodes and encodeFinish obey their option bits only; in the generated struct decoder the struct-key opcode gives DisallowUnknownFields and CaseSensitive exactly their documented effect for every option word and lookup outcome (Tier 3).",
          TRUST+"The field->option-name table in the harness (names only). Outside: bits tested inside generated code and natives.", TECH),
  "C20": ("Partial. The restartable quote / html-escape loops (alg.Quote, alg.HtmlEscape): every input byte consumed once, in order, into contiguous output inside the capacity, prefix preserved, flags passed, no panic, for every buffer geometry class and every escape-size pattern of inputs up to 3 bytes; utf8.CorrectWith repairs exactly the invalid bytes.",
          TRUST+"The native routines are modelled by their size behaviour (greedy, escape-size tables from native/parsing.h); natively the output is checked against encoding/json. Outside: the natives' machine code, unquote, utf8.", TECH),
